@@ -23,10 +23,12 @@ Theorem arith_conv_prefix_refuted :
   arithmetic_conversion true TULong TLLong <> c11_conv TULong TLLong
   /\ arithmetic_conversion true TLLong TULong <> c11_conv TLLong TULong.
 Proof. exact conv_old_refuted. Qed.
+Print Assumptions arith_conv_prefix_refuted.
 Theorem arith_conv_prefix_partial : forall a b,
   negb ((btype_eqb a TULong && btype_eqb b TLLong) || (btype_eqb a TLLong && btype_eqb b TULong)) = true ->
   arithmetic_conversion true a b = c11_conv a b.
 Proof. exact conv_old_partial. Qed.
+Print Assumptions arith_conv_prefix_partial.
 
 (* an integer constant gets the C11 6.4.4.1p5 type, for every value that has one *)
 Theorem const_type_eq_c11 : forall dec uns lc v t, 0 <= v -> (lc = 0 \/ lc = 1 \/ lc = 2) ->
@@ -57,6 +59,7 @@ Print Assumptions fold_cond_eq_runtime.
 Theorem fold_logic_eq_runtime : forall a b,
   fold_andand false a b = rt_andand a b /\ fold_oror false a b = rt_oror a b.
 Proof. exact CFoldProofs.fold_logic_eq_runtime. Qed.
+Print Assumptions fold_logic_eq_runtime.
 
 (* the pinned commit's folder: (_Bool)256 folded to 0 *)
 Theorem fold_prefix_boolcast_refuted : fold_cast true TBool (mkc TInt 256) <> rt_cast TBool (mkc TInt 256).
@@ -64,6 +67,7 @@ Proof. exact bool_cast_old_refuted. Qed.
 Theorem fold_prefix_conv_refuted :
   fold_bin true false CAdd (mkc TULong 1) (mkc TLLong 1) <> rt_bin CAdd (mkc TULong 1) (mkc TLLong 1).
 Proof. exact conv_old_fold_refuted. Qed.
+Print Assumptions fold_prefix_conv_refuted.
 Print Assumptions fold_prefix_boolcast_refuted.
 
 (* ---------------------------------------------------------------------------------------------
@@ -89,6 +93,7 @@ Print Assumptions bitfield_store_then_load.
 Theorem bitfield_conv_of_register : forall f, wf_bf f = true -> forall x,
   c11_conv_bf f (uwrap 64 x) = c11_conv_bf f x.
 Proof. exact c11_conv_reg. Qed.
+Print Assumptions bitfield_conv_of_register.
 
 (* the bits of the storage unit outside [boff, boff + bwid) are unchanged by a store, and the unit stays
    an ubits-bit pattern *)
@@ -98,9 +103,11 @@ Proof. exact bf_store_frame. Qed.
 Print Assumptions bitfield_store_frame.
 Theorem bitfield_store_range : forall f, wf_bf f = true -> forall u v, 0 <= fst (bf_store f u v) < 2 ^ ubits f.
 Proof. exact bf_store_range. Qed.
+Print Assumptions bitfield_store_range.
 Theorem bitfield_store_field : forall f, wf_bf f = true -> forall u v,
   field_bits f (fst (bf_store f u v)) = uwrap (bwid f) v.
 Proof. exact bf_store_field. Qed.
+Print Assumptions bitfield_store_field.
 
 (* the value of the assignment expression is the stored, converted value (C11 6.5.16p3) *)
 Theorem bitfield_assignment_value : forall f, wf_bf f = true -> forall u v,
@@ -112,6 +119,7 @@ Print Assumptions bitfield_assignment_value.
 Theorem bitfield_bool_store : forall f, wf_bf f = true -> forall u v, bsigned f = false ->
   bf_load f (fst (bf_store f u (m_ne0 v))) = m_ne0 v /\ snd (bf_store f u (m_ne0 v)) = m_ne0 v.
 Proof. exact bf_store_bool. Qed.
+Print Assumptions bitfield_bool_store.
 
 (* a disjoint bit-field of the same unit reads the same value before and after *)
 Theorem bitfield_store_keeps_neighbour : forall f g u v,
@@ -132,6 +140,7 @@ Print Assumptions bitfield_object_frame.
 Theorem bitfield_object_unit : forall f, wf_bf f = true -> forall uoff M v, 0 <= uoff ->
   obj_unit f uoff (obj_store f uoff M v) = fst (bf_store f (obj_unit f uoff M) v).
 Proof. exact obj_store_unit. Qed.
+Print Assumptions bitfield_object_unit.
 
 (* non-vacuity: `int b:5` at bit 3 of a 32-bit unit (struct S {unsigned a:3; int b:5; ...}); storing 17
    into a unit of all ones reads back -15, keeps the other 27 bits, and the code is the 7-insn sequence *)
